@@ -189,6 +189,9 @@ func (f *file) Read(p []byte) (n int, err error) {
 }
 
 func (f *file) ReadBlob(length int) (blob blob.Blob, n int, err error) {
+	if f.fileData == nil {
+		return nil, 0, hackpadfs.ErrClosed
+	}
 	blob, n, err = f.ReadBlobAt(length, f.offset)
 	f.offset += int64(n)
 	return
@@ -203,6 +206,9 @@ func (f *file) ReadAt(p []byte, off int64) (n int, err error) {
 }
 
 func (f *file) ReadBlobAt(length int, off int64) (b blob.Blob, n int, err error) {
+	if f.fileData == nil {
+		return nil, 0, hackpadfs.ErrClosed
+	}
 	if off >= int64(f.Size()) {
 		return nil, 0, io.EOF
 	}
@@ -227,6 +233,9 @@ func (f *file) ReadBlobAt(length int, off int64) (b blob.Blob, n int, err error)
 }
 
 func (f *file) Seek(offset int64, whence int) (int64, error) {
+	if f.fileData == nil {
+		return 0, hackpadfs.ErrClosed
+	}
 	newOffset := f.offset
 	switch whence {
 	case io.SeekStart:
@@ -251,6 +260,9 @@ func (f *file) Write(p []byte) (n int, err error) {
 }
 
 func (f *file) WriteBlob(p blob.Blob) (n int, err error) {
+	if f.fileData == nil {
+		return 0, hackpadfs.ErrClosed
+	}
 	if f.flag&hackpadfs.FlagAppend != 0 && p.Len() > 0 {
 		f.offset = int64(f.Size()) // O_APPEND: the write happens at, and moves the offset from, the current end
 	}
@@ -264,6 +276,9 @@ func (f *file) WriteAt(p []byte, off int64) (n int, err error) {
 }
 
 func (f *file) WriteBlobAt(p blob.Blob, off int64) (n int, err error) {
+	if f.fileData == nil {
+		return 0, hackpadfs.ErrClosed
+	}
 	if f.flag&hackpadfs.FlagAppend != 0 {
 		// like os.File: WriteAt is invalid on a file opened with O_APPEND
 		return 0, &hackpadfs.PathError{Op: "writeat", Path: f.path, Err: hackpadfs.ErrInvalid}
@@ -309,10 +324,16 @@ func (f *file) writeBlobAt(op string, p blob.Blob, off int64) (n int, err error)
 }
 
 func (f *file) Stat() (hackpadfs.FileInfo, error) {
+	if f.fileData == nil {
+		return nil, hackpadfs.ErrClosed
+	}
 	return fileInfo{Record: &f.runOnceFileRecord, Path: f.path}, nil
 }
 
 func (f *file) Truncate(size int64) error {
+	if f.fileData == nil {
+		return hackpadfs.ErrClosed
+	}
 	if f.Mode().IsDir() {
 		return &hackpadfs.PathError{Op: "truncate", Path: f.path, Err: hackpadfs.ErrIsDir}
 	}
@@ -346,6 +367,9 @@ func (f *file) Truncate(size int64) error {
 }
 
 func (f *file) ReadDir(n int) ([]hackpadfs.DirEntry, error) {
+	if f.fileData == nil {
+		return nil, hackpadfs.ErrClosed
+	}
 	dirNames, err := f.ReadDirNames()
 	if err != nil {
 		return nil, &hackpadfs.PathError{Op: "readdir", Path: f.path, Err: err}
@@ -405,6 +429,9 @@ func (d *dirEntry) Info() (hackpadfs.FileInfo, error) {
 }
 
 func (f *file) Chmod(mode hackpadfs.FileMode) error {
+	if f.fileData == nil {
+		return hackpadfs.ErrClosed
+	}
 	newMode := (f.Mode() & ^chmodBits) | (mode & chmodBits)
 	f.modeOverride = &newMode
 	return f.save()
